@@ -166,6 +166,21 @@ partial def jPNode : PNode → Json
   | .glyph id => obj [("k", "glyph"), ("id", Json.str (toString id))]
   | .composite a l => obj [("k", "composite"), ("alpha", jQ a), ("layers", Json.arr (l.map jPNode).toArray)]
 
+partial def getSPaint (j : Json) : Except String SPaint := do
+  let k ← getStr (← field j "k")
+  match k with
+  | "solid" => return .fill (.solid (← getNat (← field j "c")) (← getQ (← field j "a")))
+  | "lin" => return .fill (.linear (← getLin (← field j "g")) (← getNat (← field j "l")))
+  | "glyph" => return .glyph (← getNat (← field j "o")) (← getSPaint (← field j "p"))
+  | "transform" => return .transform (← getAff (← field j "m")) (← getSPaint (← field j "p"))
+  | _ => .error "bad SPaint"
+
+partial def jSPaint : SPaint → Json
+  | .fill (.solid c a) => obj [("k", "solid"), ("c", jI (Int.ofNat c)), ("a", jQ a)]
+  | .fill (.linear g l) => obj [("k", "lin"), ("g", jLin g), ("l", jI (Int.ofNat l))]
+  | .glyph o p => obj [("k", "glyph"), ("o", jI (Int.ofNat o)), ("p", jSPaint p)]
+  | .transform m p => obj [("k", "transform"), ("m", jAff m), ("p", jSPaint p)]
+
 partial def getCP (j : Json) : Except String CP := do
   let k ← getStr (← field j "k")
   match k with
@@ -236,6 +251,12 @@ def dispatch (op : String) (j : Json) : Except String Json := do
       let ins ← (← getArr (← field j "inputs")).mapM (fun ij => do
         pure (⟨← getStr (← field ij "name"), ← getNats (← field ij "cps")⟩ : GlyphInput))
       return obj [("accepted", Json.bool (acceptInputs ins [] []).isSome)]
+  | "migrate-reuse" =>
+      let T ← getAff (← field j "T")
+      let child ← getSPaint (← field j "child")
+      match migrateReuse T 0 child with
+      | some p => return obj [("paint", jSPaint p)]
+      | none => return obj [("paint", Json.null)]
   | "try-reuse" =>
       let tolv ← getQ (← field j "tolerance")
       let oracle ← match fieldOpt j "affine" with
